@@ -168,6 +168,13 @@ def run(chk):
             for idx, text in enumerate(texts):
                 base = os.path.join(chk.workdir, "in_" + fmt, "%s_%d.in" % (fmt, idx))
                 api = cli.api_dump(dump, fmt, base)
+                if idx % 2 == 1:
+                    # a spectrum-generator file that already carries the blocks the result is written to, with other entries: they belong to the input and must be echoed
+                    text = text + PREEXISTING
+                    open(base, "w").write(text)
+                    api2 = cli.api_dump(dump, fmt, base)
+                    if api2["V"] != api["V"]:
+                        chk.add_fail("C15:unread-blocks-change-the-api-values", "blocks LOWEN/SPhenoLowEnergy/GM2CalcOutput in the input change the library results", dict(format=fmt, input_text=text))
                 chk.add_sample(dict(format=fmt, input_head=text[:300], api_values={k: v for k, v in list(api["V"].items())[:1]}), cap=6)
 
                 def one(c, text=text, fmt=fmt, idx=idx):
@@ -190,6 +197,9 @@ def run(chk):
 
 
 OUTN = ["minimal", "detailed", "NMSSMTools", "SPheno", "GM2Calc"]
+PREEXISTING = ("Block LOWEN   # from the spectrum generator\n     1     3.19000000E-04   # BR(b -> s gamma)\n     2     4.10000000E-09   # BR(Bs -> mu mu)\n"
+               "Block SPhenoLowEnergy   # from the spectrum generator\n     1     3.20000000E-04   # BR(b -> s gamma)\n    20     1.06000000E-14   # (g-2)_e\n    39     1.50000000E-04   # Delta(rho)\n"
+               "Block GM2CalcOutput   # left over\n     7     1.00000000E+00   # an entry of another tool\n")
 
 
 def fail(chk, key, what, fmt, c, t, r, extra=None):
@@ -272,7 +282,7 @@ def judge(chk, fmt, c, t, r, api, cfgname):
         # (1) echo: every non-blank input line appears, in order, unchanged
         it = iter(out_lines)
         echo_ok = all(any(x == line for x in it) for line in nonblank(t.split("\n")))
-        chk.add_cell(cellbase + "|echo-of-input", 1, 0 if echo_ok else 1)
+        chk.add_cell(cellbase + "|echo-of-input" + ("(with pre-existing result blocks)" if "from the spectrum generator" in t else ""), 1, 0 if echo_ok else 1)
         if not echo_ok:
             fail(chk, "C15:slha:echo", "SLHA output does not contain every non-blank input line in order", fmt, c, t, r)
         # (2) the result block
